@@ -91,7 +91,7 @@ func (fl *FileList) addSingleFile(info lineInfo) error {
 
 	perms := statbuf.Mode
 	if !exists {
-		perms = defaults.Umask
+		perms = 0777 &^ defaults.Umask
 	}
 	if info.hasPerm {
 		if info.andMask > 0 {
